@@ -1,5 +1,5 @@
 (** parseaddr(): return codes 3 and 4 only for local@fqdn / local@[literal]; never past the terminator. *)
-From Qv Require Import Common.Bytes Gen.GenAddr Model.Addr Spec.AddrSpec
+From Qv Require Import Common.Bytes Gen.GenAddr Model.Addr Spec.AddrSpec Spec.AddrGrammar
   Proofs.AddrTables Proofs.CStrLemmas Proofs.DomainProofs Proofs.LocalProofs.
 
 Local Arguments N.eqb : simpl never.
@@ -85,8 +85,33 @@ Qed.
 
 Definition pa_post (s : bytes) (rc : nat) : Prop := parseaddr_post pton4 pton6 s rc.
 
-Theorem parseaddr_spec s rest : ~ In NUL s ->
-  exists rc, parseaddr pton4 pton6 (s ++ NUL :: rest) = Ok rc /\ pa_post s rc.
+(** the same with the exact grammar of Spec/AddrGrammar.v *)
+Definition pa_post_x (s : bytes) (rc : nat) : Prop :=
+  match rc with
+  | 0 => True
+  | 1 => fqdn_strict s /\ ~ In cAT s
+  | 2 => exists d, s = cAT :: d /\ fqdn_strict d
+  | 3 => mailbox_x pton4 pton6 lweak 3 s
+  | 4 => mailbox_x pton4 pton6 lweak 4 s
+  | _ => False
+  end.
+
+Lemma mailbox_x_weaken L rc s : mailbox_x pton4 pton6 L rc s -> mailbox pton4 pton6 L rc s.
+Proof.
+  intros (lp & dom & E & H1 & H2 & H3 & Hd). exists lp, dom. repeat (split; [assumption|]).
+  destruct Hd as [[-> Hd]|[-> (lit & E2 & Hn & Hl)]].
+  - left. split; [reflexivity|now apply fqdn_strict_fqdn].
+  - right. split; [reflexivity|]. exists lit. split; [exact E2|]. split; [exact Hn|].
+    destruct Hl as [(_ & A & B)|Hl]; [left; auto|right; exact Hl].
+Qed.
+
+Lemma pa_post_x_weaken s rc : pa_post_x s rc -> pa_post s rc.
+Proof.
+  destruct rc as [|[|[|[|[|]]]]]; cbn; auto; apply mailbox_x_weaken.
+Qed.
+
+Theorem parseaddr_spec_x s rest : ~ In NUL s ->
+  exists rc, parseaddr pton4 pton6 (s ++ NUL :: rest) = Ok rc /\ pa_post_x s rc.
 Proof.
   intros Hs. unfold parseaddr.
   destruct (strchr_spec s rest AT 0 Hs ltac:(discriminate)) as [(a & b & -> & Ha & Hr)|(Hn & Hr)];
@@ -125,11 +150,11 @@ Proof.
     assert (S1 : skipn (length a + 1) p = b ++ NUL :: rest) by (rewrite Hp, skipn_app_plus; reflexivity).
     rewrite R1, S1.
     assert (Hdom : exists rc,
-      (do dv <- domainvalid (b ++ NUL :: rest); Ok (if Nat.eqb dv 0 then PA_RC_FULL else 0)) = Ok rc /\ pa_post (a ++ AT :: b) rc).
+      (do dv <- domainvalid (b ++ NUL :: rest); Ok (if Nat.eqb dv 0 then PA_RC_FULL else 0)) = Ok rc /\ pa_post_x (a ++ AT :: b) rc).
     { rewrite domainvalid_exact by assumption. cbn [bind]. pa_consts.
       destruct (fqdn_strict_b b) eqn:E; eexists; (split; [reflexivity|]); cbn; [|exact I].
       exists a, b. split; [reflexivity|]. split; [exact Hane|]. split; [exact Ha|]. split; [exact Hw|].
-      left. split; [reflexivity|]. apply fqdn_strict_fqdn. now apply fqdn_strict_b_iff. }
+      left. split; [reflexivity|]. now apply fqdn_strict_b_iff. }
     destruct b as [|b0 b'].
     + (* "local@" *)
       cbn [app]. rewrite rd_head. cbn [bind].
@@ -187,7 +212,14 @@ Proof.
         exists 4. split; [reflexivity|]. cbn.
         exists a, (LBR :: lit ++ [RBR]). split; [reflexivity|]. split; [exact Hane|]. split; [exact Ha|]. split; [exact Hw|].
         right. split; [reflexivity|]. exists lit. split; [reflexivity|]. split; [exact Hlit|].
-        left. auto.
+        left. split; [|auto].
+        intros [r0 Hr0]. subst lit. rewrite <- app_assoc, firstn_app_exact, bytes_eqb_refl in Etag. discriminate.
+Qed.
+
+Theorem parseaddr_spec s rest : ~ In NUL s ->
+  exists rc, parseaddr pton4 pton6 (s ++ NUL :: rest) = Ok rc /\ pa_post s rc.
+Proof.
+  intros Hs. destruct (parseaddr_spec_x s rest Hs) as (rc & H & Hp). exists rc. split; [exact H|now apply pa_post_x_weaken].
 Qed.
 
 Lemma parseaddr_rc s rest rc : ~ In NUL s -> parseaddr pton4 pton6 (s ++ NUL :: rest) = Ok rc -> rc <= 4 /\ pa_post s rc.
